@@ -34,7 +34,7 @@ for P in ${PROPS//,/ }; do
   echo "check $P $TIER -> exit $RC: $(grep -m1 -E 'violated|WATCHDOG|DATA RACE|fails:' /tmp/seeded/$DEST.check.$P.log | cut -c1-260)"
 done
 git -C /repo worktree remove --force $VT
-rm -rf /verif/work/alt-*
+rm -rf /verif/work/alt-_tmp_vt_$NAME
 # keep the confirmed seed
 D=/verif/seeded/$DEST; mkdir -p $D
 cp $SRC/patch.diff $D/; cp $SRC/$DEMO $D/; [ -f $SRC/NOTES.md ] && cp $SRC/NOTES.md $D/
